@@ -373,6 +373,8 @@ class SymmetryTranslator:
                 else:
                     for t in [stm.weight, stm.priority, *stm.terms]:
                         global_vars.update(collect_ast(t, "Variable"))
+                for t in elem.terms:  # the tuple observes its variables: they must not lose half of their values
+                    global_vars.update(collect_ast(t, "Variable"))
                 for symmetry_bundle in list(
                     self.largest_symmetric_group(condition, global_vars, list(elem.terms) + list(stm.body), True)
                 ):
